@@ -36,7 +36,7 @@ MedianClauses(e) ==
 (* ---------------- z-normalisation: e.ret = round(1000 z) ------------------------- *)
 ZnormClauses(e) ==
   LET xs == e.xs  n == Len(xs)  r == e.ret IN
-  [ C20_znorm_same_length |-> OkS(e) => Len(r) = n,
+  [ C20_znorm_same_length |-> OkS(e) /\ Len(r) = n,          \* (vectors have at least two distinct values: the deviation is defined, so a failure is one)
     C20_znorm_preserves_rank_order |-> (OkS(e) /\ Len(r) = n) => \A i, j \in 1..n :
         (xs[i] < xs[j] => r[i] <= r[j]) /\ (xs[i] = xs[j] => r[i] = r[j]),
     C20_znorm_mean_zero |-> (OkS(e) /\ Len(r) = n) => AbsQ(SumSeq(r)) <= n,
